@@ -1301,7 +1301,10 @@ class Concatenate(CanBehaveLikeAVariable[T]):
                 all_values[id_].append(val)
             for s_id, s_val in sources.items():
                 all_values[s_id].append(s_val)
-        yield {k: HashedValue(v) for k, v in all_values.items()}
+        output = {k: HashedValue(v) for k, v in all_values.items()}
+        # bindings that came in from outside are not part of the concatenation: they are passed on as they are.
+        output.update(sources)
+        yield output
 
     @property
     def _name_(self):
